@@ -352,6 +352,12 @@ func (m *machine) scalarBinary(op string, a, b Value) Value {
 	if a.T.S == wgen.AbsInt && !isCmp(op) && (r.I > math.MaxInt32 || r.I < math.MinInt32) {
 		m.ev.AbsWide++
 	}
+	if a.T.S.IsFloat() && (op == "+" || op == "-") && !m.constMode && (a.Fz || b.Fz) {
+		x, y, z := math.Abs(float64(a.F32())), math.Abs(float64(b.F32())), math.Abs(float64(r.F32()))
+		if x != 0 && y != 0 && z < 1e-3*math.Max(x, y) {
+			m.ev.Imprecise++ // cancellation of inexact operands (see sumProducts)
+		}
+	}
 	if a.T.S.IsFloat() && (op == "+" || op == "-") && m.constMode {
 		x, y, z := math.Abs(float64(a.F32())), math.Abs(float64(b.F32())), math.Abs(float64(r.F32()))
 		if a.T.S == wgen.AbsFloat {
@@ -701,6 +707,11 @@ func (m *machine) sumProducts(xs, ys []Value) Value {
 	}
 	if abs >= 2048 {
 		fz = true
+	}
+	if fz && math.Abs(float64(acc)) < 1e-3*abs {
+		// inexact terms that cancel: the error of the sum is of the order of the terms, not of the
+		// result, and no relative tolerance makes the comparison sound
+		m.ev.Imprecise++
 	}
 	return m.fres(float64(acc), fz)
 }
